@@ -58,14 +58,25 @@ func propagateMatchers(binOp *parser.BinaryExpr) {
 
 	lhMatchers := toMatcherMap(lhSelector)
 	rhMatchers := toMatcherMap(rhSelector)
+	// Several matchers on one label cannot be represented in the matcher maps.
+	if len(lhMatchers) != len(lhSelector.LabelMatchers) || len(rhMatchers) != len(rhSelector.LabelMatchers) {
+		return
+	}
 	union, hasDuplicates := makeUnion(lhMatchers, rhMatchers)
 	if hasDuplicates {
 		return
 	}
 
-	finalMatchers := toSlice(union)
-	lhSelector.LabelMatchers = finalMatchers
-	rhSelector.LabelMatchers = finalMatchers
+	// Each selector keeps its own metric name matcher.
+	lhSelector.LabelMatchers = withNameMatcher(toSlice(union), lhMatchers)
+	rhSelector.LabelMatchers = withNameMatcher(toSlice(union), rhMatchers)
+}
+
+func withNameMatcher(matchers []*labels.Matcher, original map[string]*labels.Matcher) []*labels.Matcher {
+	if m, ok := original[labels.MetricName]; ok {
+		matchers = append(matchers, m)
+	}
+	return matchers
 }
 
 func toSlice(union map[string]*labels.Matcher) []*labels.Matcher {
